@@ -1,7 +1,7 @@
 (* C15 - simpliciality measures. *)
 From Coq Require Import String ZArith QArith List Bool.
 From XV Require Import Base.Label Base.LSet Base.ODict Base.Attr Base.Outcome Model.Hypergraph Model.Hodge
-  Model.Simpliciality Proofs.TrieProofs Proofs.SimplicialityMore.
+  Model.Simpliciality Proofs.TrieProofs Proofs.SimplicialityMore Proofs.HgInv Proofs.SortProofs Proofs.QuotCount Proofs.EditDistance Proofs.HgStep.
 Import ListNotations.
 
 (* the prefix tree answers exactly: is the (sorted) word one of the (sorted) inserted words *)
@@ -25,6 +25,47 @@ Theorem C15_simplicial_fraction_range : forall k excl s q,
 Proof. exact simplicial_fraction_range. Qed.
 Print Assumptions C15_simplicial_fraction_range.
 
+(* THE COUNT.  The implementation never enumerates the union of missing faces: per maximal edge it adds the
+   missing sub-faces and subtracts those already seen inside intersections with earlier maximal edges.
+   Theorem: for min_size k >= 1, on any hypergraph satisfying the class invariant whose labels are numbers or
+   strings, that loop returns the number of distinct node sets (lists compared as sets; ndist = length of the
+   de-duplicated list) among the missing sub-faces of the maximal edges ... *)
+Theorem C15_edit_distance_counts : forall s k excl, (1 <= k)%nat -> Inv s -> labels_orderable s ->
+  map snd (max_edges s (k + b2n excl)) <> [] ->
+  simplicial_edit_distance k excl false s =
+  Some (Z.of_nat (ndist (list lbl) seteqb
+         (flat_map (fun e => missing_subfaces (build_trie (map snd (edges_geq s k))) e k)
+                   (map snd (max_edges s (k + b2n excl))))) # 1).
+Proof. exact sed_counts. Qed.
+Print Assumptions C15_edit_distance_counts.
+
+(* ... and a node set x belongs to that collection exactly when it has at least k nodes, lies inside some
+   maximal edge (of the eligible size) and is not the member set of any edge *)
+Theorem C15_missing_sets_are_the_definition : forall s k excl, (1 <= k)%nat -> Inv s -> labels_orderable s ->
+  forall x, NoDup x ->
+  (memR (list lbl) seteqb x
+     (flat_map (fun e => missing_subfaces (build_trie (map snd (edges_geq s k))) e k)
+               (map snd (max_edges s (k + b2n excl)))) = true <->
+   exists e, In e (map snd (max_edges s (k + b2n excl))) /\ (forall a, In a x -> In a e) /\ (k <= length x)%nat /\
+             ~ (exists i w, In (i, w) (h_edge s) /\ seteq x w)).
+Proof. exact missing_set_spec. Qed.
+Print Assumptions C15_missing_sets_are_the_definition.
+
+(* downward closed (every node set of >= k nodes inside a maximal edge is an edge): distance 0, i.e. score 1 *)
+Theorem C15_edit_distance_zero_on_closed : forall s k excl, (1 <= k)%nat -> Inv s -> labels_orderable s ->
+  map snd (max_edges s (k + b2n excl)) <> [] ->
+  (forall e x, In e (map snd (max_edges s (k + b2n excl))) -> NoDup x -> (forall a, In a x -> In a e) ->
+               (k <= length x)%nat -> exists i w, In (i, w) (h_edge s) /\ seteq x w) ->
+  simplicial_edit_distance k excl false s = Some (0 # 1).
+Proof. exact sed_closed_zero. Qed.
+Print Assumptions C15_edit_distance_zero_on_closed.
+
+(* the normalised distance is a share *)
+Theorem C15_edit_distance_range : forall s k excl, (1 <= k)%nat -> Inv s -> labels_orderable s ->
+  forall q, simplicial_edit_distance k excl true s = Some q -> (0 <= q /\ q <= 1)%Q.
+Proof. exact sed_normalised_range. Qed.
+Print Assumptions C15_edit_distance_range.
+
 Example C15_nonvacuous :
   let s := run [OAddEdgesFrom (EB1 [[LInt 1; LInt 2; LInt 3]; [LInt 1; LInt 2]; [LInt 3; LInt 4]]) []] hg_empty in
   simplicial_edit_distance 2 true false s = Some (2 # 1)%Q /\
@@ -32,3 +73,16 @@ Example C15_nonvacuous :
   oq_eqb (mean_face_edit_distance 2 true true s) (Some (2 # 3)%Q) = true.
 Proof. vm_compute. repeat split. Qed.
 Print Assumptions C15_nonvacuous.
+
+(* the hypotheses of the counting theorems are met by a reachable state, on which the count is not zero *)
+Example C15_count_premises_met :
+  let s := run [OAddEdgesFrom (EB1 [[LInt 1; LInt 2; LInt 3]; [LInt 1; LInt 2]; [LInt 3; LInt 4]]) []] hg_empty in
+  Inv s /\ labels_orderable s /\ map snd (max_edges s (2 + b2n true)) <> [] /\
+  ndist (list lbl) seteqb (flat_map (fun e => missing_subfaces (build_trie (map snd (edges_geq s 2))) e 2)
+                                    (map snd (max_edges s (2 + b2n true)))) = 2%nat.
+Proof.
+  cbv zeta. split; [apply run_Inv; [split; exact I|apply Inv_empty]|].
+  split; [|split; [vm_compute; discriminate|vm_compute; reflexivity]].
+  apply labels_orderableb_ok. vm_compute. reflexivity.
+Qed.
+Print Assumptions C15_count_premises_met.
